@@ -19,6 +19,8 @@ for d in sorted(glob.glob("/verif/seeded/*/")):
             caught = m.get("confirmed", {}).get("note", "detected")[:160]
         part = chk.group(1) if chk else sid.split("-")[0]
         caught = part + " " + caught
+    elif m.get("excluded"):
+        caught = "not applicable — " + m["excluded"][:260]
     else:
         caught = "**missed** — " + m.get("confirmed", {}).get("note", "see text below")[:200]
     if COMPACT:
